@@ -394,3 +394,30 @@ Lemma txn_example : wf_log txn_log /\ index_wf txn_log txn_index /\ index_comple
   map cm_offset (visible (Build_cfg 1048576 0 false) txn_log) = [30; 31; 32; 35; 36] /\
   aborted_txns [] txn_log = txn_index.
 Proof. exact (conj txn_log_wf (conj txn_index_wf (conj txn_index_complete txn_visible))). Qed.
+
+
+(* ------------------------------------------------------------------ the fetch request carries the configured isolation level *)
+Lemma kv_at_least_trans_011 : forall v w, kv_at_least v w = true -> kv_at_least w (0, 11, 0, 0) = true -> kv_at_least v (0, 11, 0, 0) = true.
+Proof.
+  intros [[[a b] c0] d] [[[a' b'] c'] d']. unfold kv_at_least.
+  repeat rewrite ?orb_true_iff, ?andb_true_iff, ?Z.ltb_lt, ?Z.eqb_eq, ?Z.leb_le. lia.
+Qed.
+
+Lemma request_isolation : forall v rc, 4 <= fst (fetch_request_fields v rc) ->
+  snd (fetch_request_fields v rc) = (if rc then 1 else 0).
+Proof.
+  intros v rc. unfold fetch_request_fields.
+  destruct (kv_at_least v (0, 11, 0, 0)) eqn:E11; [reflexivity|]. cbn [snd].
+  assert (H : forall w, kv_at_least w (0, 11, 0, 0) = true -> kv_at_least v w = false).
+  { intros w Hw. destruct (kv_at_least v w) eqn:E; auto. rewrite (kv_at_least_trans_011 v w E Hw) in E11. discriminate. }
+  rewrite (H (1, 1, 0, 0) eq_refl), (H (2, 1, 0, 0) eq_refl), (H (2, 3, 0, 0) eq_refl). cbn [fst].
+  destruct (kv_at_least v (0, 10, 1, 0)), (kv_at_least v (0, 10, 0, 0)), (kv_at_least v (0, 9, 0, 0)); lia.
+Qed.
+
+Lemma request_fields_table :
+  fetch_request_fields (0, 8, 2, 0) true = (0, 0) /\ fetch_request_fields (0, 10, 0, 0) true = (2, 0) /\
+  fetch_request_fields (0, 11, 0, 0) true = (4, 1) /\ fetch_request_fields (1, 0, 0, 0) true = (4, 1) /\
+  fetch_request_fields (1, 1, 0, 0) true = (7, 1) /\ fetch_request_fields (2, 0, 0, 0) true = (7, 1) /\
+  fetch_request_fields (2, 1, 0, 0) true = (10, 1) /\ fetch_request_fields (2, 3, 0, 0) true = (11, 1) /\
+  fetch_request_fields (2, 8, 0, 0) false = (11, 0).
+Proof. repeat split; reflexivity. Qed.
